@@ -108,7 +108,10 @@ pub fn gen_straddle(r: &mut Rng, id: u32, dict_len: usize, beyond: bool) -> Synt
     let mut blocks = Vec::new();
     let mut out = 0usize;
     let align = r.urange(0, 32);
-    if align > 0 {
+    // window-edge variant (see below): no uncompressed block in front, so that every byte before the last match went
+    // through the sequence-execution path
+    let edge = !beyond && r.chance(1, 3);
+    if align > 0 && !edge {
         blocks.push(SynthBlock::Raw { seed: r.next_u64(), len: align as u32 });
         out += align;
     }
@@ -155,6 +158,36 @@ pub fn gen_straddle(r: &mut Rng, id: u32, dict_len: usize, beyond: bool) -> Synt
     }
     if blocks.is_empty() {
         blocks.push(single_seq_block(r.next_u64(), 1, 1 + dict_len as u32, 3, 0));
+    }
+    // window edge: a last dictionary match that starts when the output (including the sequence's own literals) is
+    // exactly Window_Size, or one or two bytes short of it - the format allows the reference while the decoded amount
+    // is less than or equal to Window_Size (round 5, C09-r5-m2)
+    if edge && out < window {
+        let ll = r.urange(0, 12).min(window - out) as u32;
+        let short = *r.pick(&[0usize, 0, 1, 2]);
+        let pad = (window - out - ll as usize).saturating_sub(short);
+        if pad >= 4 && out + pad > 4 {
+            // a compressed block producing exactly `pad` bytes: literals, then a 3-byte match at distance 1
+            blocks.push(single_seq_block(r.next_u64(), pad as u32 - 3, 1, 3, 0));
+            out += pad;
+        } else if pad > 0 {
+            blocks.push(SynthBlock::Raw { seed: r.next_u64(), len: pad as u32 });
+            out += pad;
+        }
+        let have = out + ll as usize;
+        let into = match r.below(3) {
+            0 => 1,
+            1 => dict_len,
+            _ => r.urange(1, dict_len),
+        };
+        let ml = match r.below(3) {
+            0 => 3,
+            1 => (into as u32 + r.urange(0, 40) as u32).max(3),
+            _ => r.urange(3, 300) as u32,
+        };
+        let ml = ml.min(1000);
+        let tail = r.urange(0, 6) as u32;
+        blocks.push(single_seq_block(r.next_u64(), ll, (have + into) as u32, ml, tail));
     }
     if r.chance(1, 3) {
         blocks.push(SynthBlock::Raw { seed: r.next_u64(), len: r.urange(0, 50) as u32 });
